@@ -7,6 +7,8 @@ pub mod c03;
 pub mod c04;
 pub mod c05;
 pub mod c06;
+pub mod c07;
+pub mod c12;
 pub mod c14;
 pub mod c15;
 
@@ -25,6 +27,8 @@ pub fn all() -> Vec<PropMeta> {
         PropMeta { id: "C04", rule: c04::RULE, assumptions: c04::ASSUMPTIONS, subs: c04::subs },
         PropMeta { id: "C05", rule: c05::RULE, assumptions: c05::ASSUMPTIONS, subs: c05::subs },
         PropMeta { id: "C06", rule: c06::RULE, assumptions: c06::ASSUMPTIONS, subs: c06::subs },
+        PropMeta { id: "C07", rule: c07::RULE, assumptions: c07::ASSUMPTIONS, subs: c07::subs },
+        PropMeta { id: "C12", rule: c12::RULE, assumptions: c12::ASSUMPTIONS, subs: c12::subs },
         PropMeta { id: "C14", rule: c14::RULE, assumptions: c14::ASSUMPTIONS, subs: c14::subs },
         PropMeta { id: "C15", rule: c15::RULE, assumptions: c15::ASSUMPTIONS, subs: c15::subs },
     ]
